@@ -36,10 +36,13 @@ def explore(cfg, workdir, depth=None, workers=16, simulate=None, invariants=None
         rec = json.loads(body)
         h = rec["h"]
         key = (f"d{rec['s']['dev']}",) + tuple(e[0] for e in h)
-        expect[key] = (tuple(e[1] for e in h), tuple(e[2] for e in h), rec["s"], rec["v"], rec.get("r"))
+        expect[key] = (tuple(e[1] for e in h), tuple(e[2] for e in h), rec["s"], rec["v"], rec.get("r"),
+                       rec.get("b"), tuple(e[3] for e in h))
 
     render = getattr(cfg, "render", False)
-    inv = invariants or (("EmitR", "RenderInv") if render else ("Emit",)) + ("TilingInv", "TypeOK")
+    template = bool(getattr(cfg, "assignments", None))
+    inv = invariants or (("EmitR", "RenderInv") if render else ("EmitB",) if template else ("Emit",)) \
+        + ("TilingInv", "TypeOK")
     res = run_tlc(workdir, "MC_gen", cfg.cfg_text(inv, depth), cfg.gen_module(),
                   on_line=on_line, workers=workers, simulate=simulate, timeout=timeout)
     return res, expect
@@ -70,6 +73,9 @@ def _replay_chunk(keys):
     ham = getattr(cfg, "ham", False)
     if ham:
         from .hamcheck import check_hamiltonian
+    template = bool(getattr(cfg, "assignments", None))
+    if template:
+        from .template import check_build
     for key in keys:
         outs, rets, st = expect[key][:3]
         dev_index = dev_of(key)
@@ -105,6 +111,10 @@ def _replay_chunk(keys):
                 if not why and render and e[4] is not None:
                     for pred, detail in check_render(run.seq, e[4], proj):
                         hookv.append((pred, pre, detail))
+                if not why and template and e[5] is not None:
+                    for pred, detail in check_build(cfg, run, ctx, pre, e, proj):
+                        hookv.append((pred, pre, detail))
+                if not why and render and e[4] is not None:
                     if ham and e[0][n] == "ok":
                         for pred, detail in check_hamiltonian(run.seq, e[4], proj, run.dev["nq"]):
                             hookv.append((pred, pre, detail))
@@ -176,7 +186,8 @@ def trace_check(cfg, traces, workdir, timeout=3600):
 
     gen = cfg.gen_module(name="MC_trace", root="PulserSeqTrace")
     cfgtxt = cfg.cfg_text(invariants=(), depth=0).replace("SPECIFICATION Spec", "SPECIFICATION TraceSpec")
-    cfgtxt += "POSTCONDITION AllConsumed\n"
+    cfgtxt = "\n".join(l for l in cfgtxt.split("\n") if not l.strip().startswith("NAssign"))
+    cfgtxt += "\nPOSTCONDITION AllConsumed\n"
     res = run_tlc(workdir, "MC_trace", cfgtxt, gen, on_line=on_line, workers=1, timeout=timeout,
                   env_extra={"TRACE_FILE": path})
     return res, reports
